@@ -89,7 +89,13 @@ _CUR = {"o0": 0}
 
 
 def _on_timer(_sig, _frm):
-    if _CUR.get("armed") and os.fstat(2).st_size - _CUR["o0"] > 48 * 1024:
+    if not _CUR.get("armed"):
+        return
+    grown = os.fstat(2).st_size - _CUR["o0"]
+    _CUR["ticks"] = _CUR.get("ticks", 0) + 1
+    # a flood of reports, or still spinning 0.3 CPU-seconds after an out-of-bounds report
+    # (the input is already a finding; what the loop does with garbage is not judged)
+    if grown > 48 * 1024 or (grown > 0 and _CUR["ticks"] >= 6):
         raise _Flood()
 
 
@@ -307,6 +313,7 @@ def _child(impls, sfd, kind):
                 signal.setitimer(signal.ITIMER_VIRTUAL, 0.05, 0.05)
                 try:
                     try:
+                        _CUR["ticks"] = 0
                         _CUR["armed"] = True
                         r = _run_impl(impl, data, mode)
                     finally:
@@ -765,7 +772,13 @@ class Worker:
                 for r in rep.partial.values():
                     if r.get("log"):
                         off = max(off, r["log"][1])
-                rep.log = self._read_log(off)
+                size = self._log_size()
+                if size - off > (768 << 10):
+                    # keep the first reports and the final (deadly signal) report
+                    rep.log = self._read_log(off, off + (512 << 10)) + "\n[...]\n" + \
+                        self._read_log(size - (256 << 10))
+                else:
+                    rep.log = self._read_log(off)
                 self._maybe_rotate()
                 return rep
             if ev.get("id") == rid:
